@@ -15,18 +15,35 @@ quantifier-free and takes milliseconds.
                                          partition-column order, one file per non-empty group opened 'wb' at root/dir/partname after
                                          mkdirs(root/dir), exactly the group's rows minus the partition columns go into it, the row group
                                          is appended once with file_path = dir/partname on every chunk == where the reader will look
-  util.path_string / val_from_meta /     value-kind lemmas  val_from_meta(path_string(v), metadata of v's column) == v  for int / float /
-  val_to_num / _val_to_num               bool / timestamp / text, and what happens WITHOUT metadata (numeric-looking text is re-typed)
-  api._strip_path_tail / paths_to_cats / one arbitrary path, one arbitrary level: scheme detection, keys in directory order, the value text,
-  _path_to_cats                          one category per directory value, agreement with what core.read_row_group looks up
-  core.read_row_group (partition block)  one arbitrary row group: key / value from THIS row group's file_path, index into cats[name]
-  util.get_file_scheme                   'hive' iff every directory level of every path has an interior '=' ...
-  util.analyse_paths                     root given: relative paths; root=False: out of reach (nested zip/enumerate/break invariant)
+  util.path_string / val_from_meta /     value-kind lemmas  val_*.roundtrip[kind]: val_from_meta(path_string(v), metadata of v's column) == v (value AND
+  val_to_num / _val_to_num               kind, no exception) for int / float / bool / timestamp / text (str and object dtype); refuted-known for tz-aware
+                                         timestamps and categoricals of non-text.  WITHOUT metadata: generic_retyping_roundtrip[no metadata, kind],
+                                         text_stays_text[no metadata, text that no parser accepts | any text (refuted-known)], never_raises,
+                                         text_result_is_the_text_itself; for ANY directory text: text_metadata_returns_the_text[...] /
+                                         never_a_text_for_non_text_metadata[...] (the cuts the read side uses)
+  util._strip_path_tail                  strip_path_tail.* : one directory text per path = the text before the last '/'
+  api.paths_to_cats + _path_to_cats      paths_to_cats[<scenario>].* : ONE arbitrary path and ONE arbitrary level of the (flattened) nested loops, every
+                                         loop-carried object (cats, string_types, seen) havoc'd under invariants that are proved on entry / preserved:
+                                           scheme_detected_is_the_layout_written, paths_and_parts_aligned, level_gives_its_key_and_value_text,
+                                           value_added_is_the_parse_of_this_level_under_its_key, a_level_only_adds_to_the_state,
+                                           every_directory_value_has_its_category (what core.read_row_group will look up IS in cats[key]),
+                                           keys_are_the_partition_names_in_directory_order, result_is_every_key_with_its_values,
+                                           invariant.{key_order, seen_values_are_recorded, seen_keys_are_present, string_types_only_*}.{on_entry,preserved}
+                                         scenarios: hive+metadata, hive without metadata (homogeneous levels), drill (homogeneous), drill with levels mixing
+                                         re-typable and plain text (refuted-known), hive / drill with '=' inside a value text (refuted-known: layout misread)
+  core.read_row_group (partition block)  read_row_group[<scenario>].* : ONE arbitrary row group, ONE arbitrary partition column: partition_level_found,
+                                         value_is_parsed_from_own_path_level_of_that_column (FIRST matching level == the column's level; no other row
+                                         group's path), category_found, assigned_to_the_column_itself, whole_slice_of_the_column_assigned_once
+  api.ParquetFile.partition_meta,        partition_meta keyed by field_name; AST obligations: every paths_to_cats / read_row_group call site gets the
+  __init__, _read_partitions, to_pandas, partition metadata (two refuted-known: single file + root, direct read_row_group_file), make_metadata's
+  read_row_group_file; writer.write      partition_columns block has a record per partition column, write() passes partition_on
+  util.get_file_scheme                   get_file_scheme.* : 'hive' when every level is name=text (non-empty both), only if every level has an interior '=',
+                                         NOT only if the keys agree between paths (refuted-known); 'drill' / 'flat' / 'empty' cases
+  util.analyse_paths                     analyse_paths.out_of_reach (UNKNOWN, see check())
+Native replays of every refutation and of the ASSUMED metadata table: tools/c08native.py.  Findings: contracts/findings.jsonl (C08-P-*).
 """
 import ast
 import itertools
-import time
-
 import z3
 
 from vc import backends
@@ -499,6 +516,12 @@ class Eng(Engine):
                 outs += qs
             return outs
         return super().assign(t, v, p)
+
+    def load_sub(self, o, i, p, node):
+        if isinstance(o, NoneV):
+            raised(p, "TypeError")            # None[...]
+            return Opaque("raised")
+        return super().load_sub(o, i, p, node)
 
     def unpack(self, v, n, p):
         if isinstance(v, Custom) and isinstance(v.h, SplitV):
@@ -1526,7 +1549,7 @@ def kind_axioms(terms):
         if z3.is_app(t):
             n = t.decl().name()
             k = {"value_of_int": K_INT, "value_of_bool": K_BOOL, "value_of_text_key": K_TEXT, "pd_to_datetime_PATH_DATE_FMT": K_TS,
-                 "pd_Timestamp_of_text": K_TS, "float_of_text": K_FLOAT}.get(n)
+                 "pd_Timestamp_of_text": K_TS, "float_of_text": K_FLOAT, "pd_Timedelta_of_text": 8}.get(n)
             if k is not None:
                 out.append(KIND(t) == k)
             if n == "value_of_text_key":
@@ -1684,7 +1707,11 @@ def run_value_kinds(ctx, funcs, timeout):
         eng = Eng(funcs=funcs, handlers=value_handlers(), inline=("val_from_meta", "_val_to_num"), opaque_calls=True)
         q = q0.fork()
         q.ctl = None
-        outs = eng.run(fn, q, [Custom(TextV(x)), meta])
+        try:
+            outs = eng.run(fn, q, [Custom(TextV(x)), meta])
+        except Unsupported as ex:            # this sub-run only: undecided, the other lemmas are still posed
+            res.add(f"{fn}.out_of_reach", UNKNOWN, None, 0.0, "engine", str(ex))
+            return eng, []
         return eng, outs
 
     kinds = [(K_INT, "int"), (K_FLOAT, "float"), (K_BOOL, "bool"), (K_TS, "timestamp"), (K_TEXT, "text"), ("text(object)", "text(object dtype)"),
@@ -1773,6 +1800,19 @@ def run_value_kinds(ctx, funcs, timeout):
                 r = as_val(eng, q.ctl[1])
                 st, m, secs = solve(cs + kind_axioms([r]) + [z3.Not(KIND(r) != K_TEXT)], timeout) if r is not None else (REFUTED, None, 0.0)
                 res.add(name, st, {"text": mval(m, x)} if m is not None else None, secs, "z3", detail)
+    eng, outs = run("val_to_num", Path(), x, NONE)
+    discharge_engine(eng, res, "val_to_num.", timeout)
+    for q in outs:
+        cs = list(q.pc) + list(q.axioms)
+        ok = q.ctl[0] == "ret"
+        res.add("val_to_num.never_raises[no metadata]", PROVED if ok else REFUTED, None if ok else {"raises": q.ctl[1]}, 0.0, "trace",
+                "WITHOUT metadata every directory text is accepted: each failing parser is caught, the text itself is the last resort")
+        if not ok:
+            continue
+        r = as_val(eng, q.ctl[1])
+        st, m, secs = solve(cs + kind_axioms([r]) + [z3.Not(z3.Implies(KIND(r) == K_TEXT, r == TEXTVAL(x)))], timeout) if r is not None else (REFUTED, None, 0.0)
+        res.add("val_to_num.text_result_is_the_text_itself[no metadata]", st, None, secs, "z3",
+                "WITHOUT metadata: whenever the result is a str it is the directory text unchanged (never another text)")
     if must_fail:
         ctx.vacuity["must_fail_sat"] += 1
     else:
@@ -2323,7 +2363,6 @@ def run_paths_to_cats(ctx, funcs, timeout, written_as, with_meta, clean, homog=T
     eng = REng(funcs=funcs, handlers=handlers, inline=("_strip_path_tail", "_path_to_cats"), opaque_calls=True)
     p = Path()
     p.pc += [R.N >= 0, 0 <= R.iL, R.iL < R.D] + hyp_at(R.j0, R.iL)[:-4] + R.path_hyps(R.j0)
-    p.pc += [R.MID(keyfn_any) != 0 for keyfn_any in ()]
     p.ghost["witness:/"] = R.iL
     p.ghost["hyp_at"] = hyp_at
     if with_meta:
@@ -2404,15 +2443,10 @@ def run_paths_to_cats(ctx, funcs, timeout, written_as, with_meta, clean, homog=T
                 secs, "z3", "the result has exactly D keys; the key at position k is " + ("the partition column name of directory level k" if written_as == "hive" else "'dir<k>'"))
         trace(res, P + "values_of_a_key_are_its_recorded_set", isinstance(lv, CatList) and kz is not None and lv.key.eq(kz),
               "result[key] == list(cats[key]): the set recorded for THAT key")
-    return res
-
-
-def _unused():
-    rets = []
-    if not rets:
-        res.add(P + "scheme_detected_is_the_layout_written", REFUTED, {"paths": str([q.ctl for q, _ in feas][:4])}, 0.0, "trace",
-                f"a non-empty dataset written in the {written_as} layout is recognised as '{written_as}'")
-    # ---- the arbitrary level (paths ending inside the loops are the 'level_done' records of the attempt that succeeds) ----------------
+        if solve(cs + [z3.Not(out.nkeys == 0)], timeout)[0] == REFUTED:        # must-fail: 'the result has no keys' is refutable
+            ctx.vacuity["must_fail_sat"] += 1
+        else:
+            ctx.engine_error("paths_to_cats" + tag + " vacuity: 'no keys' is not refutable")
     return res
 
 
@@ -2888,6 +2922,125 @@ def run_get_file_scheme(ctx, funcs, timeout):
     return res
 
 
+# =================================================================================================================================
+#  smaller pieces: util._strip_path_tail, api.ParquetFile.partition_meta, writer.make_metadata / write (metadata block, AST)
+# =================================================================================================================================
+def run_strip_path_tail(ctx, funcs, timeout):
+    res = Results()
+    eng = REng(funcs=funcs, handlers={}, opaque_calls=True)
+    p = Path()
+    p.pc += [R.N >= 0]
+    coll = PathsV()
+    outs = eng.run("_strip_path_tail", p, [Custom(coll)])
+    discharge_engine(eng, res, "strip_path_tail.", timeout)
+    z = R.PATHT(R.j0)
+    for q in outs:
+        v = q.ctl[1] if q.ctl[0] == "ret" else None
+        h = v.h if isinstance(v, Custom) and isinstance(v.h, AbstractComp) else None
+        ok = h is not None and z3.is_true(z3.simplify(h.guard)) and isinstance(h.coll, Custom) and h.coll.h is coll
+        trace(res, "strip_path_tail.one_directory_text_per_path", ok, "the result is {<directory text of p> for EVERY p in paths} (unfiltered)")
+        e = text_of(h.elt) if ok else None
+        if e is None:
+            continue
+        cs = list(q.pc) + list(q.axioms)
+        st_, m, secs = solve(cs + [z3.Not(e == z3.If(z3.Contains(z, SL), DIRNAME(z), sv("")))], timeout)
+        res.add("strip_path_tail.directory_part_of_the_path", st_, {"path": mval(m, z)} if m is not None else None, secs, "z3",
+                "the element is the text before the LAST '/' of the path (all its directory levels), '' for a bare file name")
+        ctx.vacuity["covers"] += 1
+    return res
+
+
+class SelfPF:
+    tracked = False
+
+    def attr(self, eng, p, name):
+        if name == "pandas_metadata":
+            return Custom(PandasMD())
+        raise Unsupported("self." + name)
+
+
+class PandasMD:
+    tracked = False
+
+    def call_method(self, eng, p, name, args, kw, node):
+        if name == "get" and args and isinstance(args[0], Str):
+            return [(p, Custom(MDList(args[0].s, args[1] if len(args) > 1 else NONE)))]
+        raise Unsupported("pandas_metadata." + name)
+
+
+class MDList:
+    tracked = False
+
+    def __init__(self, key, default):
+        self.key, self.default = key, default
+
+    def arbitrary(self, eng, p):
+        return Custom(ColMeta())
+
+    def nonempty(self, eng, p):
+        return z3.Bool("has_partition_columns")
+
+
+class ColMeta:
+    tracked = False
+
+    def getitem(self, eng, p, i, node):
+        if isinstance(i, Str):
+            return Custom(TextV(z3.String("column_metadata[" + i.s + "]")))
+        raise Unsupported("column metadata key")
+
+
+def run_partition_meta(ctx, funcs, timeout):
+    from vc.symexec import AbstractDict
+    res = Results()
+    eng = Eng(funcs=funcs, handlers={}, opaque_calls=True)
+    outs = eng.run("ParquetFile.partition_meta", Path(), [Custom(SelfPF())])
+    discharge_engine(eng, res, "ParquetFile.partition_meta.", timeout)
+    for q in outs:
+        v = q.ctl[1] if q.ctl[0] == "ret" else None
+        h = v.h if isinstance(v, Custom) and isinstance(v.h, AbstractDict) else None
+        ok = h is not None and z3.is_true(z3.simplify(h.guard)) and isinstance(h.coll, Custom) and isinstance(h.coll.h, MDList) \
+            and h.coll.h.key == "partition_columns" and isinstance(h.coll.h.default, Tup) and not h.coll.h.default.items
+        trace(res, "ParquetFile.partition_meta.one_entry_per_partition_columns_record", ok,
+              "partition_meta has one entry for EVERY record of pandas_metadata['partition_columns'] ([] when the block is absent)")
+        if not ok:
+            continue
+        k = text_of(h.key)
+        okk = k is not None and k.eq(z3.String("column_metadata[field_name]")) and isinstance(h.val, Custom) and isinstance(h.val.h, ColMeta)
+        trace(res, "ParquetFile.partition_meta.keyed_by_the_original_column_name", okk,
+              "the key is the record's field_name (the ORIGINAL column name - the key paths_to_cats / read_row_group look up), the value the record itself")
+        ctx.vacuity["covers"] += 1
+    return res
+
+
+def metadata_block_obligations(tree_w):
+    """AST obligations on the writer: the partition_columns block carries one get_column_metadata record per partition column, and write()
+    hands partition_on to make_metadata"""
+    res = Results()
+    fns = {n.name: n for n in tree_w.body if isinstance(n, ast.FunctionDef)}
+    mm = fns.get("make_metadata")
+    ok = False
+    if mm is not None:
+        for n in ast.walk(mm):
+            if isinstance(n, ast.For) and isinstance(n.iter, ast.Name) and n.iter.id == "partition_cols" and isinstance(n.target, ast.Name) and len(n.body) == 1:
+                t = n.target.id
+                want = f"pandas_metadata['partition_columns'].append(get_column_metadata(data[{t}], {t}))"
+                ok = ok or (isinstance(n.body[0], ast.Expr) and ast.unparse(n.body[0].value) == want)
+    res.add("make_metadata.partition_columns_block_has_a_record_per_partition_column", PROVED if ok else REFUTED, None, 0.0, "ast",
+            "for EVERY column of partition_cols: pandas_metadata['partition_columns'].append(get_column_metadata(data[column], column)) - the "
+            "dtype of the ORIGINAL column under its original name (what val_from_meta needs to restore the value kind)")
+    wr = fns.get("write")
+    ok = False
+    if wr is not None:
+        for n in ast.walk(wr):
+            if isinstance(n, ast.Call) and isinstance(n.func, ast.Name) and n.func.id == "make_metadata":
+                kw = {k.arg: k.value for k in n.keywords}
+                ok = ok or (isinstance(kw.get("partition_cols"), ast.Name) and kw["partition_cols"].id == "partition_on")
+    res.add("write.make_metadata_gets_partition_on", PROVED if ok else REFUTED, None, 0.0, "ast",
+            "write() builds the metadata with partition_cols=partition_on: every directory-partition column gets its partition_columns record")
+    return res
+
+
 def check(ctx, timeout):
     u, _, _ = parse_module("fastparquet/util.py")
     w, _, _ = parse_module("fastparquet/writer.py")
@@ -2913,6 +3066,11 @@ def check(ctx, timeout):
                                                  ("drill", False, True, True), ("drill", False, True, False), ("drill", False, False, True)):
         nm = f"paths_to_cats[{written_as},{with_meta},{clean_},{homog}]"
         out.append(guard(nm, lambda: run_paths_to_cats(ctx, af, timeout, written_as, with_meta, clean_, homog)))
+    out.append(guard("strip_path_tail", lambda: run_strip_path_tail(ctx, u, timeout)))
+    ctx.function("api.ParquetFile.partition_meta", a["ParquetFile.partition_meta"].sha, a["ParquetFile.partition_meta"].report)
+    out.append(guard("ParquetFile.partition_meta", lambda: run_partition_meta(ctx, a, timeout)))
+    ctx.function("writer.make_metadata", w["make_metadata"].sha, w["make_metadata"].report)
+    out.append(guard("make_metadata", lambda: metadata_block_obligations(parse_module("fastparquet/writer.py")[1])))
     ctx.function("util.get_file_scheme", u["get_file_scheme"].sha, u["get_file_scheme"].report)
     out.append(guard("get_file_scheme", lambda: run_get_file_scheme(ctx, u, timeout)))
     c, _, _ = parse_module("fastparquet/core.py")
